@@ -49,7 +49,11 @@ class ColumnMetadata:
         """
         if self._source is None or isinstance(self._source, str):
             return self._source
-        return self._source[self.column_name].get("HED", {})
+        column_entry = self._source[self.column_name]
+        if not isinstance(column_entry, dict):
+            # e.g. {"TaskName": "rest"}: not an entry that can carry HED
+            return {}
+        return column_entry.get("HED", {})
 
     @property
     def source_dict(self):
